@@ -96,12 +96,12 @@ theorem code_matchesLogout (env : Go.Env) (c : Pb.OIDCConfig) (h : Pb.AttributeC
 
 theorem code_matchesCallback (env : Go.Env) (c : Pb.OIDCConfig) (h : Pb.AttributeContext_HttpRequest) (cfg : Cfg) (req : Req)
     (u : Go.URL) (e : Bool) (hu : env.urlParseOracle c.GetCallbackUri = (u, e)) (hun : u.isNil = false)
-    (h1 : cfg.cbScheme = u.Scheme) (h2 : cfg.cbHost = u.hostname) (h3 : cfg.cbPort = u.port) (h4 : cfg.cbPath = u.Path)
+    (h1 : cfg.cbScheme = u.Scheme) (h2 : cfg.cbHost = u.hostname) (h3 : cfg.cbPort = u.port) (h4 : cfg.cbPath = u.escapedPath)
     (hp : req.path = h.GetPath) (hh : req.host = h.GetHost) :
     Code.matchesCallbackPath env c h = .ok (matchesCallback cfg req) := by
   unfold Code.matchesCallbackPath matchesCallback pathOf
   simp [code_pqf, bind, Except.bind, pure, Except.pure, Go.Env.urlParse, hu, hun, Go.URL.Port!, Go.URL.Hostname!,
-    Go.URL.Scheme!, Go.URL.Path!, h1, h2, h3, h4, hp, hh]
+    Go.URL.Scheme!, Go.URL.Path!, Go.URL.EscapedPath!, h1, h2, h3, h4, hp, hh]
   have hB : B "" = [] := by decide
   have hC : B ":" = [58] := by decide
   rw [hB, hC]
@@ -110,14 +110,14 @@ theorem code_matchesCallback (env : Go.Env) (c : Pb.OIDCConfig) (h : Pb.Attribut
     split <;> rename_i hc
     · simp [hc.1]; rcases hc.2 with ((h|h)|h) <;> simp [h]
     · simp only [not_and, not_or] at hc
-      by_cases hq : (pqf h.GetPath).fst = u.Path
+      by_cases hq : (pqf h.GetPath).fst = u.escapedPath
       · have := hc hq; simp [hq]; simp_all
       · simp [hq]
   · simp only [hp0, if_false]
     split <;> rename_i hc
     · simp [hc.1]; rcases hc.2 with ((h|h)|h) <;> simp_all
     · simp only [not_and, not_or] at hc
-      by_cases hq : (pqf h.GetPath).fst = u.Path
+      by_cases hq : (pqf h.GetPath).fst = u.escapedPath
       · have := hc hq; simp [hq]; simp_all
       · simp [hq]
 
